@@ -20,6 +20,9 @@ package routers
 //@   ensures [exit_of_first] (categoryUUID != "" && isnil(result1)) ==> (exists k int :: firstCat(r, k, categoryUUID) && result0 == r.categories[k].(*Category).exitUUID)
 //@   ensures [unknown_category] (categoryUUID != "" && (forall k int :: 0 <= k && k < len(r.categories) ==> r.categories[k].(*Category).uuid != categoryUUID)) ==> !isnil(result1)
 //@   ensures [result_saved] (categoryUUID != "" && isnil(result1) && r.resultName != "") ==> (exists k int :: firstCat(r, k, categoryUUID) && resultSaved(run.(*runs.run), r.resultName, match, r.categories[k].(*Category).name, operand, step.(*runs.step).nodeUUID))
+// ... and afterwards the run's results hold, under the snakified result name, a result that carries this routing: the
+// operand as input, the category's name and the node of the step (what later expressions and the session JSON show)
+//@   ensures [result_stored] (categoryUUID != "" && isnil(result1) && r.resultName != "") ==> (exists k int :: firstCat(r, k, categoryUUID) && run.(*runs.run).results[utils.Snakify(r.resultName)] != nil && run.(*runs.run).results[utils.Snakify(r.resultName)].Name == r.resultName && run.(*runs.run).results[utils.Snakify(r.resultName)].Input == operand && run.(*runs.run).results[utils.Snakify(r.resultName)].Category == r.categories[k].(*Category).name && run.(*runs.run).results[utils.Snakify(r.resultName)].NodeUUID == step.(*runs.step).nodeUUID)
 // C18: the localized category name saved with the result is what the run's language fallback picks for (category, "name")
 //@   ensures [category_localized] (categoryUUID != "" && isnil(result1) && r.resultName != "") ==> (exists nat []string, t []string, l i18n.Language {gotText(run.(*runs.run), nil, uuids.UUID(categoryUUID), "name", nat, t, l)} :: gotText(run.(*runs.run), nil, uuids.UUID(categoryUUID), "name", nat, t, l) && len(nat) == 1 && nat[0] == "" && resultLocalized(run.(*runs.run), r.resultName, t[0]))
 //@   records isnil(result1) ==> routedTo(r, categoryUUID, match, operand, result0)
